@@ -8,11 +8,13 @@
 //!   `r<i>><j>:<n>:<seed>`  listener i replies through the endpoint last reported in an event from j
 //!   `x<i>><j>:<n>:<seed>`  raw peer i does `send_to(addr_j)`
 //!   `w`                    pump the processor until quiet; raw peers read everything they have
+//!   `v6` (first op only)   every socket of this world lives on IPv6 loopback ([::1]); default IPv4
 //! sockets are numbered in creation order; payload byte k is `(seed + 7k + k/256) mod 256`.
 //! output: `st=[…] <recv><<src>:[payloads…] …` grouped by (receiver, source), order kept inside a group.
 //! The direct oracle recomputes, from the script alone, which datagrams each receiver must get from
 //! each source, and compares bytes, counts, order and the endpoint of every event.
-use message_io::network::{self, Endpoint, NetEvent, NetworkController, NetworkProcessor, ResourceId, SendStatus, Transport};
+use message_io::network::{self, Endpoint, NetEvent, NetworkController, NetworkProcessor, ResourceId, SendStatus, Transport, TransportConnect};
+use message_io::adapters::udp::UdpConnectConfig;
 use mio_harness::*;
 use std::collections::BTreeMap;
 use std::io::Write;
@@ -61,6 +63,7 @@ struct World {
     last_ep: BTreeMap<(usize, usize), Endpoint>,
     fails: Vec<String>,
     tags: std::collections::BTreeSet<&'static str>,
+    v6: bool,
 }
 
 fn parse3(s: &str) -> Option<(usize, Option<usize>, usize, u64)> {
@@ -90,7 +93,11 @@ impl World {
             last_ep: BTreeMap::new(),
             fails: vec![],
             tags: Default::default(),
+            v6: false,
         }
+    }
+    fn any_addr(&self) -> &'static str {
+        if self.v6 { "[::1]:0" } else { "127.0.0.1:0" }
     }
     fn index_of_addr(&self, a: SocketAddr) -> Option<usize> {
         self.socks.iter().position(|s| s.addr() == a)
@@ -102,17 +109,24 @@ impl World {
             _ => false,
         })
     }
-    fn note_send(&mut self, src: usize, dst: usize, data: Vec<u8>, sent: bool) {
+    fn note_send(&mut self, src: usize, dst: usize, mut data: Vec<u8>, sent: bool, lib: bool) {
         if data.is_empty() {
             self.tags.insert("zero");
         }
         if data.len() == network::Transport::Udp.max_message_size() {
             self.tags.insert("max");
         }
-        if data.len() > network::Transport::Udp.max_message_size() {
+        let max = network::Transport::Udp.max_message_size();
+        if data.len() > max {
             self.tags.insert("over");
-            if sent {
+            if sent && lib {
                 self.fails.push(format!("{} bytes reported as sent", data.len()));
+            }
+            if sent && !lib && dst < self.socks.len() && !matches!(self.socks[dst], Sock::R { .. }) {
+                // a foreign IPv6 datagram above the declared maximum (outside the property's sizes):
+                // the library's receive buffer holds the declared maximum
+                self.tags.insert("foreign-oversize");
+                data.truncate(max);
             }
         }
         else if !sent {
@@ -131,12 +145,19 @@ impl World {
     fn exec(&mut self, op: &str) -> bool {
         let (kind, rest) = op.split_at(1);
         match kind {
-            "L" if rest.is_empty() => match self.ctl.listen(Transport::Udp, "127.0.0.1:0") {
+            "v" if rest == "6" && self.socks.is_empty() => {
+                self.v6 = true;
+                self.tags.insert("ipv6");
+            }
+            "L" if rest.is_empty() => match self.ctl.listen(Transport::Udp, self.any_addr()) {
                 Ok((id, addr)) => self.socks.push(Sock::L { id, addr }),
                 Err(_) => return false,
             },
             "R" if rest.is_empty() => {
-                let sock = UdpSocket::bind("127.0.0.1:0").unwrap();
+                let sock = match UdpSocket::bind(self.any_addr()) {
+                    Ok(s) => s,
+                    Err(_) => return false,
+                };
                 sock.set_nonblocking(true).unwrap();
                 let addr = sock.local_addr().unwrap();
                 self.socks.push(Sock::R { sock, addr });
@@ -146,7 +167,15 @@ impl World {
                     Ok(j) if j < self.socks.len() => j,
                     _ => return false,
                 };
-                match self.ctl.connect(Transport::Udp, self.socks[j].addr()) {
+                // the default source address is 0.0.0.0:0: an IPv6 peer needs an IPv6 source
+                let res = if self.v6 {
+                    let cfg = UdpConnectConfig::default().with_source_address("[::1]:0".parse().unwrap());
+                    self.ctl.connect_with(TransportConnect::Udp(cfg), self.socks[j].addr())
+                }
+                else {
+                    self.ctl.connect(Transport::Udp, self.socks[j].addr())
+                };
+                match res {
                     Ok((ep, addr)) => {
                         self.socks.push(Sock::C { ep, addr, peer: j });
                         // usable once its Connected event has been processed (C03/C13)
@@ -174,7 +203,7 @@ impl World {
                 let data = payload(n, seed);
                 let st = self.ctl.send(ep, &data);
                 self.statuses.push(st_str(st));
-                self.note_send(i, peer, data, st == SendStatus::Sent);
+                self.note_send(i, peer, data, st == SendStatus::Sent, true);
             }
             "f" | "r" => {
                 let (i, j, n, seed) = match parse3(rest) {
@@ -211,7 +240,7 @@ impl World {
                 let data = payload(n, seed);
                 let st = self.ctl.send(ep, &data);
                 self.statuses.push(st_str(st));
-                self.note_send(i, j, data, st == SendStatus::Sent);
+                self.note_send(i, j, data, st == SendStatus::Sent, true);
             }
             "x" => {
                 let (i, j, n, seed) = match parse3(rest) {
@@ -244,7 +273,7 @@ impl World {
                 if matches!(self.socks[j], Sock::C { .. }) {
                     self.tags.insert("to-connected");
                 }
-                self.note_send(i, j, data, sent);
+                self.note_send(i, j, data, sent, false);
             }
             "w" if rest.is_empty() => self.pump(),
             _ => return false,
@@ -372,8 +401,12 @@ fn run_fl(kind: &str) -> (String, String, String) {
     (imp.into(), oracle, "guard".into())
 }
 
-fn pick_size(rng: &mut Rng) -> usize {
+fn pick_size(rng: &mut Rng, v6: bool) -> usize {
     let max = network::Transport::Udp.max_message_size();
+    if v6 && rng.chance(1, 4) {
+        // the window in which the IPv6 kernel limit (65527) and the declared maximum (65507) differ
+        return *rng.pick(&[max + 1, max + 2, max + 10, max + 19, max + 20, max + 21, max + 22])
+    }
     match rng.below(100) {
         0..=14 => *rng.pick(&[0usize, 0, 1, 2]),
         15..=44 => rng.range(1, 64) as usize,
@@ -387,7 +420,7 @@ fn pick_size(rng: &mut Rng) -> usize {
 
 /// one random world: the generator simulates deliveries so that replies are only asked for senders
 /// that have been heard, and paces the sends so that no receive buffer can overflow
-fn gen_case(rng: &mut Rng) -> String {
+fn gen_case(rng: &mut Rng, v6: bool) -> String {
     #[derive(Clone, Copy, PartialEq)]
     enum K {
         L,
@@ -422,7 +455,7 @@ fn gen_case(rng: &mut Rng) -> String {
         let mut pending: Vec<(usize, usize)> = vec![];
         for _ in 0..rng.range(1, 8) {
             let i = rng.below(n as u64) as usize;
-            let size = pick_size(rng);
+            let size = pick_size(rng, v6);
             let seed = rng.below(256);
             let (dst, tok) = match kinds[i] {
                 K::C(p) => (p, format!("s{}:{}:{}", i, size, seed)),
@@ -444,10 +477,12 @@ fn gen_case(rng: &mut Rng) -> String {
                 continue
             }
             // pacing: at most ~64 KiB and 12 datagrams queued at one receiver between two pumps
-            if size <= max && (bytes[dst] + size + 1024 > 67000 || count[dst] >= 12) {
+            let kmax = if v6 { max + 20 } else { max };
+            let goes = if matches!(kinds[i], K::R) { size <= kmax } else { size <= max };
+            if goes && (bytes[dst] + size + 1024 > 67000 + 20 || count[dst] >= 12) {
                 continue
             }
-            if size <= max {
+            if goes {
                 bytes[dst] += size + 1024;
                 count[dst] += 1;
                 let accepted = match kinds[dst] {
@@ -465,13 +500,13 @@ fn gen_case(rng: &mut Rng) -> String {
             heard.insert(p);
         }
     }
-    format!("udp e2e {}", ops.join(" "))
+    format!("udp e2e {}{}", if v6 { "v6 " } else { "" }, ops.join(" "))
 }
 
 /// systematic size sweep: every size in [from, to] with the given stride through the four paths
 /// (connected -> listener, raw -> listener, listener -> raw, listener -> connected), one pump per size
 /// group so that nothing can overflow
-fn gen_sweep(out: &mut impl Write, from: usize, to: usize, stride: usize, per_line: usize, threads: usize) {
+fn gen_sweep(out: &mut impl Write, from: usize, to: usize, stride: usize, per_line: usize, threads: usize, v6: bool) {
     let mut sizes: Vec<usize> = (from..=to).step_by(stride.max(1)).collect();
     let max = network::Transport::Udp.max_message_size();
     for s in [0usize, 1, max - 1, max, max + 1] {
@@ -483,6 +518,9 @@ fn gen_sweep(out: &mut impl Write, from: usize, to: usize, stride: usize, per_li
         .chunks(per_line)
         .map(|chunk| {
             let mut ops: Vec<String> = vec!["L".into(), "R".into(), "C0".into()];
+            if v6 {
+                ops.insert(0, "v6".into());
+            }
             let mut budget = 0usize;
             for (k, n) in chunk.iter().enumerate() {
                 let seed = (n * 31 + k) % 256;
@@ -540,6 +578,12 @@ const CORPUS: &[&str] = &[
     "udp e2e L L f0>1:10:1 f1>0:11:2 w r0>1:12:3 r1>0:13:4 w",
     // a library socket connected to a raw peer, both directions
     "udp e2e R C0 s1:20:1 s1:1472:2 s1:1473:3 w x0>1:30:4 x0>1:0:5 w",
+    // IPv6: the kernel takes 65527 bytes, the library's declared maximum stays 65507 on both send paths
+    "udp e2e v6 L R C0 s2:65507:1 w s2:65508:2 s2:65527:3 s2:65528:4 f0>1:65508:5 f0>1:65527:6 f0>2:65508:7 w f0>1:65507:8 w x1>0:65507:9 w",
+    // IPv6: a foreign datagram above the declared maximum reaches the library cut to its buffer
+    "udp e2e v6 L R x1>0:65520:7 w x1>0:65527:8 w x1>0:65528:9 w x1>0:12:1 w",
+    // IPv6: replies and several senders
+    "udp e2e v6 L R R C0 x1>0:3:1 x2>0:3:2 s3:3:3 w r0>1:5:7 r0>2:0:8 r0>3:5:9 f0>3:65507:2 w",
 ];
 
 fn main() {
@@ -562,7 +606,8 @@ fn main() {
             }
             let mut rng = Rng::new(seed);
             for _ in 0..n {
-                let case = gen_case(&mut rng);
+                let v6 = rng.chance(1, 3);
+                let case = gen_case(&mut rng, v6);
                 let toks: Vec<&str> = case.split(' ').skip(2).collect();
                 let (imp, oracle, tags) = run_case(&toks);
                 emit(&mut out, &case, &imp, &oracle, &tags);
@@ -572,7 +617,7 @@ fn main() {
             let from = arg_u64(2, 0) as usize;
             let to = arg_u64(3, 65508) as usize;
             let stride = arg_u64(4, 97) as usize;
-            gen_sweep(&mut out, from, to, stride, 8, arg_u64(5, 8) as usize);
+            gen_sweep(&mut out, from, to, stride, 8, arg_u64(5, 8) as usize, arg(6) == "v6");
         }
         "run" => {
             for line in stdin_lines() {
